@@ -3,7 +3,7 @@
    line.py, _stream.py; tied to /repo by harness/c01.py).  The inner one-shot codec (enc, dec) is arbitrary. *)
 From Coq Require Import List Arith.
 From EN Require Import Lib.Bytes Frame.Framer Frame.ReadUntil Frame.BufReadUntil Stream.Consumer Stream.SpecDecode
-  Frame.Serialize Proofs.C01_proofs Proofs.Fixed_proofs Proofs.BufFixed_proofs Proofs.Serialize_proofs.
+  Frame.Serialize Frame.Convert Proofs.C01_proofs Proofs.Convert_proofs Proofs.Fixed_proofs Proofs.BufFixed_proofs Proofs.Serialize_proofs.
 Import ListNotations.
 
 (* Copying consumer (StreamDataConsumer over read_until): for EVERY list of packets valid for the codec, EVERY way of
@@ -36,6 +36,37 @@ Theorem bconsumer_roundtrip :
                  bcons c' = None /\ balready c' = 0 /\ bexported c' = None.
 Proof. intros P sep keep_end enc dec limit sizehint Hne Hl pkts chunks fuel. exact (bconsumer_roundtrip_l sep keep_end enc dec Hne limit sizehint pkts chunks fuel Hl). Qed.
 Print Assumptions bconsumer_roundtrip.
+
+(* Protocols with a converter (StreamProtocol(serializer, converter)): the converted packets survive any chunking. For
+   every converter pair with from_dto (to_dto p) = Some p on the packets sent and every codec valid for their DTOs, the
+   copying consumer over the protocol's generator (serializer generator + create_from_dto_packet) returns exactly the
+   packets, in order, once, and ends holding nothing. (General form, any framer: Proofs/Convert_proofs.v cdeliver_conv —
+   the events with a converter are the converted events without it, same remainders, PacketConversionError in place of
+   the packet when the conversion fails.) *)
+Theorem consumer_roundtrip_with_converter :
+  forall (Q P : Type) (sep : bytes) (keep_end : bool) (enc : Q -> bytes) (dec : decoder Q)
+         (to_dto : P -> Q) (from_dto : Q -> option P) (limit : nat),
+    sep <> [] ->
+    forall (pkts : list P) (chunks : list bytes) (fuel : nat),
+      Forall (fun p => from_dto (to_dto p) = Some p) pkts ->
+      Forall (valid_pkt sep keep_end enc dec limit) (map to_dto pkts) ->
+      Forall (fun ch => ch <> []) chunks ->
+      concat chunks = stream sep enc (map to_dto pkts) ->
+      length (stream sep enc (map to_dto pkts)) < fuel ->
+      let G := conv_framer from_dto (ru_framer sep limit keep_end dec) in
+      snd (cdeliver G fuel (cinit _) chunks) = map RPkt pkts /\
+      cbuf (fst (cdeliver G fuel (cinit _) chunks)) = [] /\ ccons (fst (cdeliver G fuel (cinit _) chunks)) = None.
+Proof.
+  intros Q P sep keep_end enc dec to_dto from_dto limit Hne pkts chunks fuel Hconv Hv Hch Hc Hf G.
+  pose proof (cdeliver_conv from_dto (ru_framer sep limit keep_end dec) fuel chunks (cinit _)) as H.
+  change (conv_st from_dto (ru_framer sep limit keep_end dec) (cinit (ru_framer sep limit keep_end dec))) with (cinit G) in H.
+  fold G in H. rewrite H.
+  rewrite (consumer_roundtrip_l sep keep_end enc dec Hne limit (map to_dto pkts) chunks fuel Hv Hch Hc Hf).
+  cbn [fst snd cbuf ccons conv_st]. split; [|split; reflexivity].
+  clear - Hconv. induction Hconv as [|p pkts Hp _ IH]; [reflexivity|].
+  cbn [map conv_ev]. rewrite Hp, IH. reflexivity.
+Qed.
+Print Assumptions consumer_roundtrip_with_converter.
 
 (* Sending side (incremental_serialize of StringLineSerializer and AutoSeparatedPacketSerializer, with or without the
    separator check): for every transmittable payload (non-empty; the separator first occurs in payload ++ separator at
